@@ -5,7 +5,7 @@
    emits against it.  `exec` is the engine model (Engine.v), `sem` the plan-independent denotation (Sem.v). *)
 Require Import KV.Sparql.Base KV.Sparql.Syntax KV.Sparql.MuProofs KV.Sparql.JoinProofs KV.Sparql.Algebra KV.Sparql.Engine
         KV.Sparql.PlanEquiv KV.Sparql.Sem KV.Sparql.ScanProofs KV.Sparql.BgpProofs KV.Sparql.HashProofs KV.Sparql.SemProofs
-        KV.Sparql.ExecLemmas KV.Sparql.GroupProofs KV.Sparql.EngineProofs KV.Sparql.PlanProofs.
+        KV.Sparql.ExecLemmas KV.Sparql.GroupProofs KV.Sparql.EngineProofs KV.Sparql.PlanProofs KV.Sparql.MemoKey.
 Require Import Permutation.
 
 (* Join of solution multisets is commutative and associative (up to permutation / as lists). *)
@@ -78,6 +78,13 @@ Theorem C02_undef_filter_plan_dependence_refuted :
                         ~ (exec st ev None p1 [[]] ≡ₚ exec st ev None p2 [[]]).
 Proof. exact plan_dependence_refuted. Qed.
 Print Assumptions C02_undef_filter_plan_dependence_refuted.
+
+(* The memo key (create_memo_key / serialize_filter_expression) is NOT injective: filter constants are spliced in
+   unescaped, two different conditions serialize alike.  Replayed on the real optimizer by the check
+   (known finding C02-memo-key-collision: the second UNION branch is executed with the first branch's filter). *)
+Theorem C02_memo_key_collision_refuted : expr_eqb coll1 coll2 = false /\ ser_expr coll1 = ser_expr coll2.
+Proof. exact memo_key_collision. Qed.
+Print Assumptions C02_memo_key_collision_refuted.
 
 (* non-vacuity: a plan with all three join algorithms satisfying every hypothesis of C02_plan_independent *)
 Example C02_example :
